@@ -262,6 +262,9 @@ impl Prop for C08 {
     let sel = |y: i64, step: i64| env.tier == Tier::Thorough || y % step == (env.seed % step as u64) as i64 || SPECIAL_YEARS.contains(&y);
     match t {
       "days" => {
+        // strided walks on fresh threads (see engine::stride_walks)
+        stride_walks(env, out, "day", env.tier.pick(1600, 48000) / nshards as u32, 7000 + shard as u64, 0, (crate::model::NDAYS as i64) - 366, 800, &|x| vec![x], &ev);
+        stride_walks(env, out, "time", env.tier.pick(800, 24000) / nshards as u32, 7100 + shard as u64, 0, (crate::model::NDAYS as i64) - 366, 800, &|x| vec![x, (x * 7919).rem_euclid(86400)], &ev);
         let ts = ensure(ylo - 1, yhi + 1);
         let mut rev = Reverse::new(6);
         for y in ylo..=yhi {
